@@ -1228,6 +1228,14 @@ func (st *vC06State) observe2(c []byte, class string, local bool) (*common.Versi
 	st.r.Eval()
 	var ver *common.VersionedTransaction
 	var err error
+	given := bytes.Clone(c) // the bytes as they were submitted (the decoder must not touch the caller's slice)
+	defer func() {
+		if !bytes.Equal(given, c) {
+			st.r.Violation("C06|decode|caller-buffer-modified|"+class, "decoding changed the byte slice it was given (whatever it then compares with those bytes is no longer what was submitted)",
+				map[string]any{"class": class, "case": st.caseNo, "input": vC06Hex(given), "after": vC06Hex(c)})
+			copy(c, given)
+		}
+	}()
 	if p, val, stack := verifkit.Guard(func() { ver, err = common.UnmarshalVersionedTransaction(c) }); p {
 		st.r.Violation("C06|decode-panic|"+verifkit.PanicSite(stack), fmt.Sprintf("the transaction decoder panicked on a byte string (%s): %v", class, val),
 			map[string]any{"class": class, "case": st.caseNo, "input": vC06Hex(c)})
@@ -1271,7 +1279,7 @@ func (st *vC06State) observe2(c []byte, class string, local bool) (*common.Versi
 			map[string]any{"class": class, "case": st.caseNo, "input": vC06Hex(c)})
 		return nil, vC06Reported
 	}
-	if !bytes.Equal(re, c) {
+	if !bytes.Equal(re, given) {
 		st.r.Violation("C06|decode|noncanonical|"+class, "the decoder accepted a byte string that does not re-encode to the same bytes",
 			map[string]any{"class": class, "case": st.caseNo, "input": vC06Hex(c), "reencoded": vC06Hex(re)})
 	}
